@@ -8,10 +8,13 @@ def _key(g):
     return (g["o"], g["L"], g["S"], g["F"])
 
 
-def concretise(case, scratch, tag, with_low=False):
+def concretise(case, scratch, tag, with_low=False, long_len=False):
     """Build real image(s) for one Disc.tla case. Returns list of dict(path, argv_prefix, drive, colon, g, start,
     nsec, rem, stamps, own_salt, kind)."""
     g, s, nsec, rem = case["reg"], case["start"], case["nsec"], case["rem"]
+    if long_len:
+        # the same extent relative to the boundary, but 256 sectors longer at the front: the length needs bits 16-17 of the field
+        s, nsec = s - 256, nsec + 256
     bm = min(g["L"], g["S"] - g["o"], g["F"] - g["o"])
     length = nsec * 256 + rem
     out = []
@@ -40,6 +43,14 @@ def concretise(case, scratch, tag, with_low=False):
         stamps = mkdisc.Stamps(); stamps.add(21, n); stamps.add(22, n)
         for side, salt, drive in ((0, 21, "0"), (1, 22, "2")):
             out.append(dict(d=None, files=[path], drive=drive, g=dict(o=0, L=n, S=n, F=2 * n), start=s + n - bm, stamps=stamps, own=salt, kind="dsd-side%d" % side))
+        # a one-sided disc in a two-sided image: side 1 never formatted (80 tracks: the only geometry that holds side 0's file system)
+        n = 800
+        st = s + n - bm
+        side0 = mkdisc.surface_dfs(n, 23, title=b"HALF", entries=ent(st))
+        for fill, ext in ((0xE5, "dsd"), (0x00, "dsd")):
+            path = mkdisc.write(os.path.join(scratch, "%s-half%02x.%s" % (tag, fill, ext)), mkdisc.container_interleaved(side0, bytes([fill]) * (n * 256), 10))
+            stamps = mkdisc.Stamps(); stamps.add(23, n)
+            out.append(dict(d=None, files=[path], drive="0", g=dict(o=0, L=n, S=n, F=2 * n), start=st, stamps=stamps, own=23, kind="dsd-blank-side1"))
         # MMB: slots 0,1,2 present; test slot 1 (drive 2 under the physical policy: slots go to 0,2,4..)
         n = 800
         slots = {}
@@ -50,6 +61,9 @@ def concretise(case, scratch, tag, with_low=False):
         for slot in (0, 1, 2):
             stamps.add(30 + slot, n)
         out.append(dict(d=None, files=[path], drive="2", g=dict(o=0, L=n, S=n, F=3 * n), start=s + n - bm, stamps=stamps, own=31, kind="mmb-slot1"))
+        # the same with an unformatted slot in front of the one read: slot 1 is marked unformatted (its 200K are still there), slot 2 is read
+        path = mkdisc.write(os.path.join(scratch, tag + "-mu.mmb"), mkdisc.container_mmb(slots, status={0: 0x0F, 1: 0xF0, 2: 0x00}))
+        out.append(dict(d=None, files=[path], drive="4", g=dict(o=0, L=n, S=n, F=3 * n), start=s + n - bm, stamps=stamps, own=32, kind="mmb-slot2-after-unformatted"))
     elif k == (0, 8, 8, 6):
         n, f = 800, 600
         st = s + f - bm
